@@ -71,3 +71,14 @@ Theorem C09_delegated_needs_live_grant : forall now gs grantee granter kind amou
   forall g, In g gs' -> unexpired now g.
 Proof. exact use_grant_live. Qed.
 Print Assumptions C09_delegated_needs_live_grant.
+
+From Sge Require Import Model.Orderbook Gen.kernels Proofs.GenKernels.
+(* what can be withdrawn: maxWithdrawalAmount / WithdrawableAmount / SetLiquidityAfterWithdrawal are generated from
+   x/orderbook/types/participation.go on every run and proved equal to the model's functions *)
+Theorem C09_kernels_generated : forall p mode amount amt,
+  K_OrderBookParticipation_maxWithdrawalAmount (gp_of p) = max_withdrawal p /\
+  K_OrderBookParticipation_WithdrawableAmount (gp_of p) mode amount = withdrawable_amount p mode amount /\
+  K_OrderBookParticipation_SetLiquidityAfterWithdrawal (gp_of p) amt =
+    gp_of (part_upd p (p_liq p - amt) (p_crl p - amt) (p_enf p) (p_tba p) (p_crtb p) (p_maxloss p) (p_crml p) (p_crml_odds p) (p_profit p)).
+Proof. intros. split; [reflexivity|]. split; [apply gen_WithdrawableAmount|reflexivity]. Qed.
+Print Assumptions C09_kernels_generated.
